@@ -51,6 +51,15 @@ type Knobs struct {
 	CleanupMinFree int64  `json:"cleanup_min_free"`
 }
 
+// WriteFault: while the body of job Kind#Seq runs (or while API op OpID is
+// executed, Kind "api") no regular file can grow beyond Limit bytes.
+type WriteFault struct {
+	Kind  string `json:"kind"`
+	Seq   int    `json:"seq,omitempty"`
+	OpID  int    `json:"op,omitempty"`
+	Limit int64  `json:"limit"`
+}
+
 type Plan struct {
 	Prop       string      `json:"prop"`
 	Seed       uint64      `json:"seed"`
@@ -67,6 +76,7 @@ type Plan struct {
 	ConvGarble bool        `json:"conv_garble,omitempty"` // converter breaks the protocol once per stream version (one malformed line, then a normal answer)
 	MergeFail  bool        `json:"merge_fail,omitempty"`  // disk error: creating the merged index file fails (every merge)
 	ImportFail int         `json:"import_fail,omitempty"` // disk error: the first n index file creations of imports fail
+	WriteFail  []WriteFault `json:"write_fail,omitempty"` // disk full during one step
 	Restarts   []int       `json:"restarts,omitempty"`    // clean restart after these step numbers
 	CrashEvery int         `json:"crash_every,omitempty"` // C12: snapshot at every n-th changed I/O point (1 = all)
 	CrashMax   int         `json:"crash_max,omitempty"`
@@ -543,6 +553,19 @@ func Gen(prop, tier string, seed, run uint64) Plan {
 	}
 	if (prop == "C05" || prop == "C10" || prop == "C07") && r.IntN(4) == 0 {
 		p.Restarts = []int{5 + r.IntN(40)}
+	}
+	if (prop == "C09" || prop == "C13" || prop == "C12" || prop == "C10" || prop == "C06") && r.IntN(5) == 0 {
+		// disk full while an import or merge writes its files
+		limits := []int64{1, 64, 300, 1000, 2500, 4096, 6000, 9000, 15000}
+		for i, m := 0, 1+r.IntN(2); i < m; i++ {
+			k := []string{"import", "import", "merge"}[r.IntN(3)]
+			p.WriteFail = append(p.WriteFail, WriteFault{Kind: k, Seq: r.IntN(3), Limit: limits[r.IntN(len(limits))]})
+		}
+	}
+	if prop == "C12" && r.IntN(3) == 0 && len(mutOps) > 0 {
+		// disk full while an API call saves the state
+		o := p.Ops[len(impOps)+r.IntN(len(mutOps))]
+		p.WriteFail = append(p.WriteFail, WriteFault{Kind: "api", OpID: o.ID, Limit: []int64{1, 16, 100, 400}[r.IntN(4)]})
 	}
 	if prop == "C12" {
 		p.CrashEvery = 1
